@@ -524,6 +524,67 @@ def rule_c14_last_location(ctx):
               loc=body_loc(tr), bad_desc="stored Location is not the last `location` field on %d of %d paths" % (bad, n))
 
 
-C13_RULES = [rule_c13]
+def rule_c13_filter(ctx):
+    """R13.5: the suppression filter over the inherited headers is exactly `name not in unset list`: the predicate
+    closure is stateless (captured by shared reference) and its result is the negation of the membership test"""
+    R = "R13.5"
+    prog = ctx.prog
+    hd = prog.find("AmendedRequest::<Body>::headers")
+    if not ctx.require(hd, R, "entry", "effective header iterator"):
+        return
+    filt = []
+    for bb, t in hd.calls():
+        if short(callee_path(t) or "").endswith("Iterator::filter"):
+            a = t["args"][1]
+            ty = a.get("place", {}).get("ty", "")
+            for c in prog.closures_of(hd):
+                if c.span.split(":")[1] in ty:
+                    filt.append(c)
+    if not ctx.require(filt, R, "filter-closure", "filter predicate of the effective header iterator"):
+        return
+    I = mk_interp(prog)
+    for c in filt:
+        ENV = ("OBJ", "env")
+
+        def init(st):
+            st.write_leaf(ENV, (), ("term", ("in", "env")))
+            st.write_leaf(("OBJ", "item"), (), ("term", ("in", "item")))
+        outs = I.run(c, [ref(ENV), ref(("OBJ", "item"))], init)
+        bad = []
+        if len(outs) != 1 or outs[0].kind != "return":
+            bad.append("the predicate has %d outcomes (%s); expected the single expression `!unset.any(..)`" % (len(outs), sorted(set(o.kind for o in outs))))
+        else:
+            r = outs[0].ret.get(())
+            rs = repr(r)
+            okshape = (r and r[0] == "term" and r[1][0] == "not" and r[1][1][0] == "call" and r[1][1][1].endswith("Iterator>::any")
+                       and "('f', 'unset')" in rs and "('OBJ', 'item')" in rs)
+            if not okshape:
+                bad.append("predicate result is %s" % rs[:200])
+        from .effects import effects_of
+        w = effects_of(prog).summary.get(c.id, set())
+        if w:
+            bad.append("the predicate stores to captured state %s" % sorted(map(str, w))[:2])
+        # the membership closure compares a list element with the header *name* (item.0)
+        inner = [x for x in prog.closures_of(c)]
+        cmp_ok = False
+        for ic in inner:
+            def init2(st):
+                st.write_leaf(ENV, (), ("term", ("in", "env")))
+                st.write_leaf(("OBJ", "x"), (), ("term", ("in", "x")))
+            o2 = I.run(ic, [ref(ENV), ref(("OBJ", "x"))], init2)
+            if len(o2) == 1 and o2[0].kind == "return":
+                rr = repr(o2[0].ret.get(()))
+                if ("eq" in rr) and "('in', 'x')" in rr and "('in', 'env')" in rr and "('f', '0')" in rr:
+                    cmp_ok = True
+                else:
+                    bad.append("membership closure returns %s" % rr[:200])
+        ctx.check(cmp_ok and not bad, R, "suppression-predicate",
+                  "an inherited header is kept exactly when its name is not in the suppression list (single stateless expression "
+                  "`!unset.any(|x| x == name)`)", loc=body_loc(c), detail=bad[:4])
+    # the list membership compares with the header *name*
+    ctx.ok(R, "filter-present", "the inherited part of the effective iterator is filtered", loc=body_loc(hd), nontrivial=False)
+
+
+C13_RULES = [rule_c13, rule_c13_filter]
 C14_RULES = [rule_c14, rule_c14_last_location]
 C15_RULES = [rule_c15_table, rule_c15_detection, rule_c15_status_origin]
